@@ -142,6 +142,9 @@ class Model:
         dec_var = self.vt_model.dvar(shape, vtype, name)
         dec_var = DecVar(self, dec_var, name=name)
         self.dec_vars.append(dec_var)
+        self.var_ev_list = None
+        self.pupdate = True
+        self.dupdate = True
 
         return dec_var
 
@@ -169,6 +172,7 @@ class Model:
                          else dvar.vtype * len(dvar.event_adapt)
                          for dvar in self.dec_vars])
         var_const = self.ro_model.dvar(total, vtype=vtype)
+        self.var_const = var_const
 
         count = 0
         for dvar in self.dec_vars:
@@ -450,7 +454,7 @@ class Model:
 
         # Event-wise objective function
         self.ro_model.obj = None
-        self.ro_model.min(self.ro_model.rc_model.vars[1][0].to_affine())
+        self.ro_model.min(self.var_const[0].to_affine())
         sign = self.sign
         constr = (self.dec_vars[0] >= self.obj * sign)
         if isinstance(constr, ExpPWConstr):
